@@ -348,12 +348,28 @@ def run(ctx, rep):
                      f'{3 if quick else 6} random compositions, merge, permutation, normal-form re-parse')
 
 
+def squeeze_layout(text):
+    """Collapse runs of blanks where the property says they cannot matter: outside ``` fences and outside `...`
+    fragments (verbatim code is passed through untouched, so whitespace inside it, e.g. in a string literal, is content)."""
+    out, fenced = [], False
+    for ln in text.split('\n'):
+        if ln.startswith('```'):
+            fenced = not fenced
+            out.append(ln)
+        elif fenced:
+            out.append(ln)
+        else:
+            parts = ln.split('`')
+            out.append('`'.join(re.sub(r'[ \t]+', ' ', p) if i % 2 == 0 else p for i, p in enumerate(parts)))
+    return '\n'.join(out)
+
+
 def search(ctx, rep, disagreements):
     for d in disagreements:
         t = d.get('case', {}).get('text')
         if isinstance(t, str):
             # a disagreeing text: is it a layout of something whose plain form parses differently?
-            squeezed = re.sub(r'[ \t]+', ' ', t)
+            squeezed = squeeze_layout(t)
             oracle_variant('layout-not-neutral:whitespace-squeeze', squeezed, t, rep, 'neighbourhood')
     run(ctx, rep)
 
